@@ -25,3 +25,23 @@ and `convert` is not monotone. -/
 def FirstEntryRoom (z : Zone) : Prop := i64min ≤ timeOf z 0 + offOf z 0 - offBefore z 0
 
 end Cctz.Spec
+
+namespace Cctz.Spec
+open Cctz Cctz.Tz
+
+/-- A tame table: what `load` produces from data whose recorded transition times lie within ±2^59
+(the range the code's own sentinels assume) and whose rule-generated part, if any, reaches the year
+2196 (so that the 400-year shift of lookups up to max() stays representable).  All shipped zones
+and the synthetic corpus satisfy it (the driver evaluates `TableCheck.tameb` and friends on every
+zone of a run); the well-formed files that do not are the known findings F4/F7/F9/F13. -/
+structure Tame (z : Zone) : Prop where
+  wf : TableWF z
+  cols : CivilCols z
+  sorted : CivilSorted z
+  offs : ∀ k, k < z.types.size → -90000 < (typ z k).utcOffset ∧ (typ z k).utcOffset < 90000
+  times : ∀ i, i < z.transitions.size → -1152921504606846976 ≤ timeOf z i ∧ timeOf z i ≤ 1152921504606846976
+  halves : timeOf z 0 < 0 ∧ 0 ≤ timeOf z (z.transitions.size - 1)
+  ext : z.extended = true → ∃ ly, z.lastYear = some ly ∧ 7161147007 ≤ timeOf z (z.transitions.size - 1) ∧
+          -40000000000 ≤ ly ∧ ly ≤ 40000000000 ∧ (trn z (z.transitions.size - 1)).civilSec.y ≤ ly + 1
+
+end Cctz.Spec
